@@ -145,7 +145,9 @@ pub fn err_kind(e: &io::Error) -> &'static str {
 
 /// Runs `f`, turning a panic into `Err(message)`.  The default hook is silenced.
 pub fn catch<T>(f: impl FnOnce() -> T) -> Result<T, String> {
+    let prev = IN_CATCH.with(|c| c.replace(true));
     let r = std::panic::catch_unwind(std::panic::AssertUnwindSafe(f));
+    IN_CATCH.with(|c| c.set(prev));
     r.map_err(|e| {
         if let Some(s) = e.downcast_ref::<&str>() {
             s.to_string()
@@ -158,7 +160,17 @@ pub fn catch<T>(f: impl FnOnce() -> T) -> Result<T, String> {
 }
 
 pub fn silence_panics() {
-    std::panic::set_hook(Box::new(|_| {}));
+    // panics inside the crate under test are expected and caught; panics of the harness itself
+    // (outside catch) must stay visible
+    std::panic::set_hook(Box::new(|info| {
+        if !IN_CATCH.with(|c| c.get()) {
+            eprintln!("harness panic: {}", info);
+        }
+    }));
+}
+
+thread_local! {
+    pub static IN_CATCH: std::cell::Cell<bool> = const { std::cell::Cell::new(false) };
 }
 
 pub fn arg<'a>(args: &'a [String], name: &str) -> Option<&'a str> {
